@@ -23,6 +23,17 @@ CLAIMS = {
              "compiler; machine integers are treated as mathematical outside exo_floor_div; exo_floor_div's "
              "semantics is proved under C08.",
         technique=_T + "; bounded translation validation of emitted C text via a small C expression evaluator"),
+    "C05": dict(
+        text="Thin: the linear-integer lowering inside UEq.problem.solve is proved (lower_e returns the coefficient "
+             "vector of its argument by structural induction, lower_p is a sound lowering of Eq/Conj/Disj/Cases, the "
+             "solution read back denotes the model value), normalize preserves values, and DoReplace's protocol is "
+             "proved on real procedures: exactly the unified prefix is replaced by one call of the original "
+             "sub-procedure with the solved arguments, every other statement is kept, Check_Aliasing runs on the result.",
+        design_ref="3/C05",
+        note="The structural matcher (Unification.unify_stmts/unify_e, BufVar window case split, to_ueq/from_ueq) and "
+             "the inline-inverse sentence are NOT covered; the SMT oracle is assumed. Known finding F9: replace() "
+             "does not check the callee's assertions at the new call site (no repair keeps the suite passing).",
+        technique=_T),
     "C07": dict(
         text="Every in-place mutation site (548 obligations) in the scheduling, effect-analysis, cursor, LoopIR, "
              "proc_eqv and API files is proved to act on a container that is fresh on every path (flow-sensitive "
@@ -54,6 +65,17 @@ CLAIMS = {
         note="Assumes effect extraction (stmts_effs/getsets) over-approximates the accesses of an iteration, the "
              "is_empty lowering and the SMT solver; block lengths <= 3 in the traversal shapes.",
         technique=_T + "; formula-construction contracts (captured formula implies the property's condition)"),
+    "C10": dict(
+        text="Check_DeleteConfigWrite and Check_ExtendEqv are run with abstract ternary atoms per configuration field "
+             "through the real simplifier and Kleene lowering; for every normal return z3 proves that only "
+             "configuration state is modified, a field read afterwards is unchanged, and every field not reported is "
+             "unchanged or overwritten. DoConfigWrite/DoBindConfig/DoDeleteConfig/DoCallSwap, the four API wrappers "
+             "and Procedure.__init__ are proved to pass exactly the reported set on to derive_proc; call_eqv proceeds "
+             "only if get_strictest_eqv_proc relates the callees and uses exactly its keys.",
+        design_ref="3/C10",
+        note="Assumes soundness of the global data-flow (globenv), effect extraction, get_point_exprs, is_elem/is_empty "
+             "and z3; 1-3 candidate fields and small statement positions are enumerated as shapes.",
+        technique=_T + "; formula-construction contracts (captured solver formulas imply the property's condition)"),
     "C11": dict(
         text="All of proc_eqv.py is under contract over a symbolic heap with unbounded many nodes: find's loop "
              "invariant (ghost root/rank) shows path compression never changes the partition, union merges exactly "
@@ -109,5 +131,5 @@ _PLANNED = "planned in DESIGN.md but the contracts are not built yet; not claime
 NOT_APPLICABLE = {
     "C14": "needs a formal semantics of vendor intrinsics (AVX2/AVX-512 C fragments); no contract over code in /repo can state it - any contract would be the assumption the property asks to check",
 }
-for _k in ("C01 C03 C04 C05 C06 C10 C15 C16 C19").split():
+for _k in ("C01 C03 C04 C06 C15 C16 C19").split():
     NOT_APPLICABLE.setdefault(_k, _PLANNED)
